@@ -136,7 +136,13 @@ def candidates(plan):
     if plan.get("level") == "est":
         yield from candidates_est(plan)
         return
-    if plan.get("level") == "matrix":
+    if plan.get("level") == "rng":
+        if len(plan["rng_draws"]) > 1:
+            h = len(plan["rng_draws"]) // 2
+            for part in (plan["rng_draws"][:h], plan["rng_draws"][h:]):
+                p2 = copy.deepcopy(plan)
+                p2["rng_draws"] = part
+                yield "halve_draws", p2
         return
     ops = plan["ops"]
     # 1. drop operations
@@ -198,6 +204,8 @@ def candidates(plan):
             p2["ops"][i]["start"] = "cold"
             p2["ops"][i]["w0"] = None
             yield "cold_start", p2
+    if plan.get("matrix"):
+        return      # a cell's data are part of the cell: only knobs and faults are simplified
     # 5. data reduction
     X = np.array(plan["data"]["X"], dtype=float)
     for j in range(X.shape[1] - 1, -1, -1):
